@@ -28,6 +28,8 @@ pub fn create_vm_map() -> Box<dyn VMMap + Send + Sync> {
 #[cfg(mmtk_verif)]
 pub static mut VERIF_VM_MAP_FACTORY: Option<fn() -> Box<dyn VMMap + Send + Sync>> = None;
 #[cfg(mmtk_verif)]
+pub use self::mmapper::csm::ChunkStateMmapper as VerifChunkStateMmapper;
+#[cfg(mmtk_verif)]
 pub static mut VERIF_MMAPPER_FACTORY: Option<fn() -> Box<dyn Mmapper>> = None;
 
 #[cfg(target_pointer_width = "64")]
